@@ -488,6 +488,15 @@ package checkers
 //@   requires c != nil && ctxOK(c.ctx)
 //@   call (*nilValReturnChecker).warn requires @claim-returned-value-is-nil typeIs(stmt, "*ast.IfStmt") && len(cast(stmt, "*ast.IfStmt").Body.List) == 1 && cast(stmt, "*ast.IfStmt").Body.List[0] == arg1 && typeIs(arg1, "*ast.ReturnStmt") && typeIs(cast(stmt, "*ast.IfStmt").Cond, "*ast.BinaryExpr") && cast(cast(stmt, "*ast.IfStmt").Cond, "*ast.BinaryExpr").Op == token.EQL && cast(cast(stmt, "*ast.IfStmt").Cond, "*ast.BinaryExpr").X == arg2 && sideEffectFree(c.ctx.TypesInfo, arg2) && tvIsNil(c.ctx.TypesInfo.Types[cast(cast(stmt, "*ast.IfStmt").Cond, "*ast.BinaryExpr").Y]) && (exists k int :: 0 <= k && k < len(cast(arg1, "*ast.ReturnStmt").Results) && astEq(arg2, cast(arg1, "*ast.ReturnStmt").Results[k]) && !becomesIface(cast(arg1, "*ast.ReturnStmt"), k, arg2))
 
+// dupSubExpr: `x != x`, `x == x`, `x <= x`, `x >= x`, `x / x`, `x - x` claim nothing about operands that can hold a NaN: whether
+// an operand can is decided by its underlying type (a defined float type is a float type), 24 = types.IsFloat|types.IsComplex
+//@ spec nanCapable(ctx *linter.CheckerContext, x ast.Expr) bool = typeIs(typeUnderlying(typeOfSpec(ctx, x)), "*types.Basic") && bitand(basicInfo(cast(typeUnderlying(typeOfSpec(ctx, x)), "*types.Basic")), 24) != 0
+//@ func (*dupSubExprChecker).resultIsFloat
+//@   prop C12
+//@   requires c != nil && ctxOK(c.ctx)
+//@   pure
+//@   ensures @float-or-complex-by-underlying-type result == nanCapable(c.ctx, expr)
+
 // dupSubExpr: the two operands are the same value - one side-effect-free expression written twice
 //@ func (*dupSubExprChecker).checkBinaryExpr
 //@   prop C12
@@ -495,6 +504,7 @@ package checkers
 //@   astvalid
 //@   requires c != nil && ctxOK(c.ctx)
 //@   call (*dupSubExprChecker).warn requires @claim-operands-are-the-same-value arg1 == expr && sideEffectFree(c.ctx.TypesInfo, expr) && astEq(expr.X, expr.Y)
+//@   call (*dupSubExprChecker).warn requires @nan-sensitive-operators-spare-float-operands !(nanCapable(c.ctx, expr.X) && c.floatOpsSet[expr.Op])
 //@   call (*dupSubExprChecker).warn requires @operand-was-searched-for-literals-that-make-new-values $scanned(payload(expr.X)) && !$scanFound(payload(expr.X))
 
 // composite and function literals yield a distinct value per evaluation: `&T{} == &T{}` is not a duplicated operand
